@@ -83,7 +83,7 @@ def crypto_grid(run, quick):
                 run.violation("C13_crypto_item", {"op": "enc", "alg": p["alg"], "mode": p["mode"], "pad": p["pad"], "iv": p["iv"]},
                               {"row": o["row"], "status": o["status"], "reason": o["reason"]})
     rl = _Relabel(run)
-    c06.other_rows(rl, [r for r in rows if r["k"] != "enc"], quick)
-    c06.signatures(rl, quick)
+    c06.other_rows(rl, [r for r in rows if r["k"] not in ("enc", "sign")], quick)
+    c06.signatures(rl, quick, [r for r in rows if r["k"] == "sign"])
     run.traces += k + rl.traces
     run.extra["crypto_grid_cells"] = k + rl.traces
